@@ -199,8 +199,21 @@ def refStep (r : IRef) (t0 : List String) (obs : String) : IRef × String :=
                     else ("ok", ar2)
                   | none => ("ok", ar2)
               else if ires = "err:fatal" then
-                -- C06: a clean failure is allowed iff no common cipher (or the message is not for this stage, self connection, undecryptable payload)
-                ("ok", ar1)
+                -- C06: a clean failure is allowed iff no common cipher (or the message is not for this stage, self connection, undecryptable payload).
+                -- Decided here for the clear case: a fresh responder (expecting a ping, nothing received before) gets the genuine ping of ANOTHER node
+                let partnerParty := (lookupS r.atts gm.sender).bind (fun a => lookupS r.parties a.party)
+                let isPing : Bool := match gm.bytes with
+                  | 255 :: gb => (match InitMsg.readFields ((gb.drop 8).length + 1) (gb.drop 8) {} with
+                      | .ok (f, _) => f.stage = some Generated.STAGE_PING && f.ecdh.isSome && f.algos.isSome && f.hash.isSome
+                      | .error _ => false)
+                  | _ => false
+                match partnerParty with
+                | some pp =>
+                  if isPing && (ar.state = "" || (field ar.state "init").map (fun x => x.startsWith "1/") = some true) && pp.nodeId ≠ p.nodeId && !pp.nodeId.isEmpty &&
+                      C06.selectRef p.algos pp.algos ≠ .fail then
+                    (s!"FAIL C06 the handshake failed although the two lists share {choiceName (C06.selectRef p.algos pp.algos)}", ar1)
+                  else ("ok", ar1)
+                | none => ("ok", ar1)
               else ("ok", ar1)
           | 255 :: _, none => ("-", ar1)
           | _, _ =>
